@@ -49,9 +49,10 @@ theorem C09_append_ok {E : Impl.Env} {db db' : Impl.Db} {t o d : Bytes} (hinv : 
   exact ⟨pre, post, e1, e2⟩
 
 /-- The same without the idempotence hypothesis: what is stored is the data normalised *twice*.
-    Only the edit of the abstract collection is claimed: without `hidem` the invariant can break,
-    because duplicates are looked up under `E.norm t d` while `E.norm t (E.norm t d)` is stored
-    (counterexample below). -/
+    Only the edit of the abstract collection is claimed here.  (Before the F27 repair the invariant
+    could break without `hidem`, because the list looked duplicates up under `E.norm t d` while
+    `E.norm t (E.norm t d)` was stored.  Since the repair the list looks up what it stores, and the
+    invariant survives as well: `Impl.Db.append_inv_raw`, see the examples below.) -/
 theorem C09_append_ok_raw {E : Impl.Env} {db db' : Impl.Db} {t o d : Bytes}
     (h : db.append E t o d = .ok db') :
     ∃ pre post, Impl.abs db = pre ++ post ∧
@@ -80,6 +81,17 @@ theorem C09_append_err_iff {E : Impl.Env} {db : Impl.Db} {t o d : Bytes}
       (t ∉ Impl.schemes ∨ (t, o, E.norm t d) ∈ Impl.abs db ∨
         (t = Impl.guidSha256 ∧ (E.norm t d).length ≠ 32)) :=
   Impl.Db.append_error_iff hidem
+
+/-- F27 repair: the list-level `AppendBytes` rejects data whose PEM-decoded form is already in the
+    list (it used to look for the undecoded bytes and then store the decoded ones a second time). -/
+theorem C09_list_append_no_duplicate {E : Impl.Env} {l l' : Impl.SList} {o d : Bytes}
+    (h : l.appendBytes E o d = .ok l') : l.has o (E.norm l.type d) = false ∧
+      l'.sigs = l.sigs ++ [⟨o, E.norm l.type d⟩] := by
+  obtain ⟨hn, _, _, e⟩ := Impl.appendBytes_ok h
+  refine ⟨?_, by rw [e]⟩
+  cases hh : l.has o (E.norm l.type d) with
+  | false => rfl
+  | true => exact absurd ((Impl.SList.has_iff _ _ _).mp hh) hn
 
 /-! ### remove -/
 
@@ -127,7 +139,9 @@ theorem C09_decoded_inv {bs : Bytes} {db : Impl.Db} (h : Impl.readDb bs = some d
 
 /-- Every database reachable from the empty one or from a decoded duplicate-free stream by
     successful `Append` (16-byte owner), `Remove` and `AppendList` (of a list satisfying the
-    invariant) satisfies the invariant — provided PEM normalisation is idempotent. -/
+    invariant) satisfies the invariant — provided PEM normalisation is idempotent.
+    (Since the F27 repair `hidem` is no longer needed for this: `Impl.Db.append_inv_raw`.  The
+    statement is kept as it was.) -/
 theorem C09_reachable_wf {E : Impl.Env} (hidem : E.Idem) {db : Impl.Db}
     (h : Impl.Reachable E db) : db.Inv :=
   h.inv hidem
@@ -173,19 +187,42 @@ example : Impl.Reachable Ex.env
     (.decoded (bs := Ex.bytes) (db := Ex.db) (by decide +kernel) (by decide +kernel))
     (by decide) (by decide +kernel)
 
-/-- Without idempotence the invariant can break (so `C09_append_ok_raw` cannot claim it): with a
-    decoder mapping `[0] ↦ [1] ↦ [2]`, appending `[0]` to a list that holds `[2]` looks up `[1]`,
-    finds nothing, and stores `[2]` a second time. -/
-example : ∃ (E : Impl.Env) (db db' : Impl.Db), db.Inv ∧
+/-- F27 repair, list level: the DER form is in the list, the same certificate arrives as PEM —
+    rejected (it used to be stored a second time) -/
+example : (⟨Impl.guidX509, 48, 0, 20, [], [⟨Ex.owner1, [0x30, 0x03, 0x02, 0x01]⟩]⟩ : Impl.SList).appendBytes
+    Ex.pemEnv Ex.owner1 [0x2d] = .error .exists := by decide +kernel
+/-- … while a PEM certificate that is not there yet is stored as DER -/
+example : (⟨Impl.guidX509, 48, 0, 20, [], [⟨Ex.owner1, [0x30, 0x03, 0x02, 0x02]⟩]⟩ : Impl.SList).appendBytes
+    Ex.pemEnv Ex.owner1 [0x2d] = .ok ⟨Impl.guidX509, 68, 0, 20, [],
+      [⟨Ex.owner1, [0x30, 0x03, 0x02, 0x02]⟩, ⟨Ex.owner1, [0x30, 0x03, 0x02, 0x01]⟩]⟩ := by
+  decide +kernel
+
+/- Before the F27 repair this example held (statement kept for the record; it is FALSE now):
+
+     Without idempotence the invariant can break (so `C09_append_ok_raw` cannot claim it): with a
+     decoder mapping `[0] ↦ [1] ↦ [2]`, appending `[0]` to a list that holds `[2]` looks up `[1]`,
+     finds nothing, and stores `[2]` a second time.
+
+     example : ∃ (E : Impl.Env) (db db' : Impl.Db), db.Inv ∧
+         db.append E Impl.guidX509 Ex.owner1 [0] = .ok db' ∧ ¬ db'.Inv
+
+   With the repaired `appendBytes` the list looks up `[2]`, the very bytes it is about to store, and
+   refuses; and no environment at all can break the invariant through `Append` any more. -/
+example : Impl.Db.append ⟨fun d => if d = [0] then some [1] else if d = [1] then some [2] else none⟩
+    [⟨Impl.guidX509, 45, 0, 17, [], [⟨Ex.owner1, [2]⟩]⟩] Impl.guidX509 Ex.owner1 [0]
+    = .error .exists := by decide +kernel
+example : ¬ ∃ (E : Impl.Env) (db db' : Impl.Db), db.Inv ∧
     db.append E Impl.guidX509 Ex.owner1 [0] = .ok db' ∧ ¬ db'.Inv := by
-  refine ⟨⟨fun d => if d = [0] then some [1] else if d = [1] then some [2] else none⟩,
-    [⟨Impl.guidX509, 45, 0, 17, [], [⟨Ex.owner1, [2]⟩]⟩],
-    [⟨Impl.guidX509, 62, 0, 17, [], [⟨Ex.owner1, [2]⟩, ⟨Ex.owner1, [2]⟩]⟩], ?_, by decide +kernel, ?_⟩
-  · exact Impl.readDb_inv (bs := Impl.encDb [⟨Impl.guidX509, 45, 0, 17, [], [⟨Ex.owner1, [2]⟩]⟩])
-      (by decide +kernel) (by decide +kernel)
-  · intro h
-    have := (h _ List.mem_cons_self).2.2.2.2.2.2
-    simp at this
+  rintro ⟨E, db, db', hinv, h, hn⟩
+  exact hn (Impl.Db.append_inv_raw hinv (by decide) h)
+/-- What non-idempotent normalisation still costs: `Append` looks `E.norm t d` up in the database
+    but the list stores `E.norm t (E.norm t d)`, so the entry that `C09_append_ok_raw` reports can
+    already be present in another list (here `[1] ↦ [2, 2]`; the list of size 18 holds `[2, 2]`, the
+    new list gets it again).  The invariant does not speak about different lists. -/
+example : Impl.Db.append ⟨fun d => if d = [0] then some [1] else if d = [1] then some [2, 2] else none⟩
+    [⟨Impl.guidX509, 46, 0, 18, [], [⟨Ex.owner1, [2, 2]⟩]⟩] Impl.guidX509 Ex.owner1 [0]
+    = .ok [⟨Impl.guidX509, 46, 0, 18, [], [⟨Ex.owner1, [2, 2]⟩]⟩,
+           ⟨Impl.guidX509, 46, 0, 18, [], [⟨Ex.owner1, [2, 2]⟩]⟩] := by decide +kernel
 
 end Examples
 
@@ -203,3 +240,4 @@ end GoUefi.C09
 #print axioms GoUefi.C09.C09_appendList
 #print axioms GoUefi.C09.C09_decoded_inv
 #print axioms GoUefi.C09.C09_reachable_wf
+#print axioms GoUefi.C09.C09_list_append_no_duplicate
